@@ -682,6 +682,18 @@ val fkind_of : string -> fkind option
 
 val parse_float : string -> num option
 
+val p_yaml_raw : nat -> string list -> (yaml * string list) option
+
+val insert_by : ('a1 -> 'a1 -> bool) -> 'a1 -> 'a1 list -> 'a1 list
+
+val sort_by : ('a1 -> 'a1 -> bool) -> 'a1 list -> 'a1 list
+
+val yaml_text : yaml -> string
+
+val norm_in_key : yaml -> yaml
+
+val norm_yaml : yaml -> yaml
+
 val p_yaml : nat -> string list -> (yaml * string list) option
 
 val p_yamls : nat -> string list -> (yaml list * string list) option
@@ -689,6 +701,8 @@ val p_yamls : nat -> string list -> (yaml list * string list) option
 val p_strs : nat -> string list -> (string list * string list) option
 
 val sp : string -> string -> string
+
+val canon_key : bool -> value -> string
 
 val canon : bool -> value -> string
 
